@@ -133,6 +133,9 @@ pub fn find_mut_right<'a>(v: &'a mut Vec<EntityRightNode>, id: &Uid) -> (r: Opti
 pub assume_specification<T, F: FnMut(&T, &T) -> std::cmp::Ordering>[ <[T]>::sort_by ](s: &mut [T], compare: F)
     ensures final(s)@.to_multiset() == old(s)@.to_multiset();
 
+/// "nothing new": every entry of the merged list is an entry already held (by id)
+pub open spec fn all_users_held(s: Seq<UserNode>, n: int, old_s: Seq<UserNode>) -> bool { forall|i: int| 0 <= i < n ==> id_in_users((#[trigger] s[i]).node.id, old_s) }
+pub open spec fn all_rights_held(s: Seq<EntityRightNode>, n: int, old_s: Seq<EntityRightNode>) -> bool { forall|i: int| 0 <= i < n ==> id_in_rights((#[trigger] s[i]).node.id, old_s) }
 pub open spec fn id_in_users(id: Uid, s: Seq<UserNode>) -> bool { exists|j: int| 0 <= j < s.len() && (#[trigger] s[j]).node.id@ =~= id@ }
 pub open spec fn id_in_rights(id: Uid, s: Seq<EntityRightNode>) -> bool { exists|j: int| 0 <= j < s.len() && (#[trigger] s[j]).node.id@ =~= id@ }
 /// every user-admin entry of the merged group that the receiver did not already hold was authored by a room admin at the entry's date
@@ -374,6 +377,8 @@ pub proof fn lemma_appended_keeps_entries(a: Map<Vec<u8>, Vec<User>>, b: Map<Vec
             // [merge_new_user_admins_by_admins] a user-admin entry not already held is accepted only from a room admin at the entry's date
             forall|i: int| 0 <= i < it.index@ ==> id_in_users((#[trigger] new_auth.user_admin_nodes@[i]).node.id, old_auth.user_admin_nodes@)
                 || spec_is_admin(*room, new_auth.user_admin_nodes@[i].node.verifying_key, new_auth.user_admin_nodes@[i].node.mdate),
+            // [no_new_user_admin_goes_unreported_so_far]{C10} as long as the merge reports "nothing to write", every user-admin entry seen is one already held
+            !need_update ==> all_users_held(new_auth.user_admin_nodes@, it.index@ as int, old_auth.user_admin_nodes@),
             // [merge_new_user_admins_applied] and is applied to the group against which the definition's new users are checked
             forall|i: int| 0 <= i < it.index@ ==> id_in_users((#[trigger] new_auth.user_admin_nodes@[i]).node.id, old_auth.user_admin_nodes@)
                 || entry_in(authorisation.as_auth().user_admins@, spec_user_of(new_auth.user_admin_nodes@[i])),
@@ -429,6 +434,9 @@ pub proof fn lemma_appended_keeps_entries(a: Map<Vec<u8>, Vec<User>>, b: Map<Vec
         invariant
             <[u8; 16] as PartialEqSpec<[u8; 16]>>::obeys_eq_spec(),
             new_auth.user_admin_nodes@ == ua_final, authorisation.as_auth() == acc_final,
+            !need_update ==> all_users_held(ua_final, ua_final.len() as int, old_auth.user_admin_nodes@),
+            // [no_new_user_goes_unreported_so_far]{C10}
+            !need_update ==> all_users_held(new_auth.user_nodes@, it.index@ as int, old_auth.user_nodes@),
             // [merge_new_users_by_user_admins_or_admins] a user entry not already held is accepted only from a user admin of the group or a room admin at the entry's date
             forall|i: int| 0 <= i < it.index@ ==> id_in_users((#[trigger] new_auth.user_nodes@[i]).node.id, old_auth.user_nodes@)
                 || spec_can_admin_users(authorisation.as_auth(), new_auth.user_nodes@[i].node.verifying_key, new_auth.user_nodes@[i].node.mdate)
@@ -473,6 +481,9 @@ pub proof fn lemma_appended_keeps_entries(a: Map<Vec<u8>, Vec<User>>, b: Map<Vec
         invariant
             <[u8; 16] as PartialEqSpec<[u8; 16]>>::obeys_eq_spec(),
             new_auth.user_admin_nodes@ == ua_final, new_auth.user_nodes@ == u_final,
+            !need_update ==> all_users_held(ua_final, ua_final.len() as int, old_auth.user_admin_nodes@) && all_users_held(u_final, u_final.len() as int, old_auth.user_nodes@),
+            // [no_new_right_goes_unreported_so_far]{C10}
+            !need_update ==> all_rights_held(new_auth.right_nodes@, it.index@ as int, old_auth.right_nodes@),
             // [merge_new_rights_by_admins] a right entry not already held is accepted only from a room admin at the entry's date
             forall|i: int| 0 <= i < it.index@ ==> id_in_rights((#[trigger] new_auth.right_nodes@[i]).node.id, old_auth.right_nodes@)
                 || spec_is_admin(*room, new_auth.right_nodes@[i].node.verifying_key, new_auth.right_nodes@[i].node.mdate),
@@ -499,6 +510,10 @@ pub proof fn lemma_appended_keeps_entries(a: Map<Vec<u8>, Vec<User>>, b: Map<Vec
                 && new_users_entitled(*room, acc, old_auth.user_nodes@, final(new_auth).user_nodes@),
             // [merged_group_new_rights_entitled]
             r is Ok ==> new_rights_entitled(*room, old_auth.right_nodes@, final(new_auth).right_nodes@),
+            // [group_merge_reports_nothing_to_write_only_when_nothing_is_new]{C10} lower bound of the verdict: the merge of a group answers "nothing to write" only when every user-admin, user and right entry of the merged group is one already held - a definition received from a peer that brings a new entry is always written, so that the importer's room is the sender's after a restart too
+            r is Ok && !r->Ok_0 ==> all_users_held(final(new_auth).user_admin_nodes@, final(new_auth).user_admin_nodes@.len() as int, old_auth.user_admin_nodes@)
+                && all_users_held(final(new_auth).user_nodes@, final(new_auth).user_nodes@.len() as int, old_auth.user_nodes@)
+                && all_rights_held(final(new_auth).right_nodes@, final(new_auth).right_nodes@.len() as int, old_auth.right_nodes@),
 //@ end
 
 // ================================================================= room level
@@ -600,6 +615,60 @@ pub proof fn lemma_step_keeps_groups(acc: Room, before: Seq<AuthorisationNode>, 
         }
     }
 }
+/// "nothing new" for a group already held: the merged group has the row held and every entry of its three lists is one already held
+pub open spec fn group_unchanged(o: AuthorisationNode, n: AuthorisationNode) -> bool {
+    n.node.id@ =~= o.node.id@ && node_same(n.node, o.node)
+    && all_users_held(n.user_admin_nodes@, n.user_admin_nodes@.len() as int, o.user_admin_nodes@)
+    && all_users_held(n.user_nodes@, n.user_nodes@.len() as int, o.user_nodes@)
+    && all_rights_held(n.right_nodes@, n.right_nodes@.len() as int, o.right_nodes@)
+}
+pub open spec fn has_unchanged_group(s: Seq<AuthorisationNode>, o: AuthorisationNode) -> bool { exists|i: int| 0 <= i < s.len() && group_unchanged(o, #[trigger] s[i]) }
+pub open spec fn all_auths_held(s: Seq<AuthorisationNode>, n: int, old_s: Seq<AuthorisationNode>) -> bool { forall|i: int| 0 <= i < n ==> id_in_auths((#[trigger] s[i]).node.id, old_s) }
+pub proof fn lemma_group_unchanged_refl(o: AuthorisationNode)
+    ensures group_unchanged(o, o)
+{
+    lemma_node_same_local(o.node, o.node, o.node);
+    assert forall|i: int| 0 <= i < o.user_admin_nodes@.len() implies id_in_users((#[trigger] o.user_admin_nodes@[i]).node.id, o.user_admin_nodes@) by { assert(o.user_admin_nodes@[i].node.id@ =~= o.user_admin_nodes@[i].node.id@); }
+    assert forall|i: int| 0 <= i < o.user_nodes@.len() implies id_in_users((#[trigger] o.user_nodes@[i]).node.id, o.user_nodes@) by { assert(o.user_nodes@[i].node.id@ =~= o.user_nodes@[i].node.id@); }
+    assert forall|i: int| 0 <= i < o.right_nodes@.len() implies id_in_rights((#[trigger] o.right_nodes@[i]).node.id, o.right_nodes@) by { assert(o.right_nodes@[i].node.id@ =~= o.right_nodes@[i].node.id@); }
+}
+/// the same step for "held and nothing new"
+pub proof fn lemma_step_unchanged_groups(before: Seq<AuthorisationNode>, after: Seq<AuthorisationNode>, old_s: Seq<AuthorisationNode>, upto: int)
+    requires
+        0 <= upto < old_s.len(), distinct_group_ids(old_s),
+        forall|j: int| 0 <= j < upto ==> has_unchanged_group(before, #[trigger] old_s[j]),
+        (has_id_auth(before, old_s[upto].node.id@) && ({
+            let idx = first_idx_auth(before, old_s[upto].node.id@);
+            0 <= idx < before.len() && before[idx].node.id@ =~= old_s[upto].node.id@ && after == before.update(idx, after[idx]) && group_unchanged(old_s[upto], after[idx])
+        })) || (!has_id_auth(before, old_s[upto].node.id@) && after == before.push(old_s[upto])),
+    ensures
+        forall|j: int| 0 <= j <= upto ==> has_unchanged_group(after, #[trigger] old_s[j]),
+{
+    let o = old_s[upto];
+    if has_id_auth(before, o.node.id@) {
+        let idx = first_idx_auth(before, o.node.id@);
+        assert forall|j: int| 0 <= j <= upto implies has_unchanged_group(after, #[trigger] old_s[j]) by {
+            if j < upto {
+                let i = choose|i: int| 0 <= i < before.len() && group_unchanged(old_s[j], #[trigger] before[i]);
+                assert(!(old_s[j].node.id@ =~= old_s[upto].node.id@));
+                assert(i != idx);
+                assert(after[i] == before[i]);
+            } else {
+                assert(group_unchanged(old_s[j], after[idx]));
+            }
+        }
+    } else {
+        assert forall|j: int| 0 <= j <= upto implies has_unchanged_group(after, #[trigger] old_s[j]) by {
+            if j < upto {
+                let i = choose|i: int| 0 <= i < before.len() && group_unchanged(old_s[j], #[trigger] before[i]);
+                assert(after[i] == before[i]);
+            } else {
+                lemma_group_unchanged_refl(o);
+                assert(after[after.len() - 1] == o);
+            }
+        }
+    }
+}
 /// a group that is new to the receiver: authored by an admin, its rights and user admins authored by admins, its users by its user admins or by admins
 pub open spec fn new_group_ok(acc: Room, n: AuthorisationNode) -> bool {
     spec_is_admin(acc, n.node.verifying_key, n.node.mdate)
@@ -679,6 +748,8 @@ pub open spec fn new_admins_entitled(room0: Room, old_s: Seq<UserNode>, s: Seq<U
             all_flagged(old(room_node).auth_nodes@) ==> unflagged_are_held(room_node.auth_nodes@, old_room_node.auth_nodes@),
             <[u8; 16] as PartialEqSpec<[u8; 16]>>::obeys_eq_spec(),
             admin_ext(room0, room),
+            // [no_new_admin_goes_unreported_so_far]{C10}
+            !need_update ==> all_users_held(room_node.admin_nodes@, it.index@ as int, old_room_node.admin_nodes@),
             // [room_merge_new_admins_by_admins] an admin entry not already held is accepted only from a key that is an admin at the entry's date
             forall|i: int| 0 <= i < it.index@ ==> id_in_users((#[trigger] room_node.admin_nodes@[i]).node.id, old_room_node.admin_nodes@) || entitled_admin_entry(room0, room_node.admin_nodes@[i]),
 //@ insert before-stmt "let user = new_admin.parse()"
@@ -690,6 +761,7 @@ pub open spec fn new_admins_entitled(room0: Room, old_s: Seq<UserNode>, s: Seq<U
         invariant
             all_flagged(old(room_node).auth_nodes@) ==> unflagged_are_held(room_node.auth_nodes@, old_room_node.auth_nodes@),
             room_node.admin_edges@ == ae_final, room_node.admin_nodes@ == a_final,
+            !need_update ==> all_users_held(a_final, a_final.len() as int, old_room_node.admin_nodes@),
             // [room_merge_keeps_group_references]
             forall|j: int| 0 <= j < ite.index@ ==> has_same_edge(room_node.auth_edges@, #[trigger] old_room_node.auth_edges@[j]),
 //@ insert before-stmt "let auth_edge = &room_node"
@@ -706,6 +778,9 @@ pub open spec fn new_admins_entitled(room0: Room, old_s: Seq<UserNode>, s: Seq<U
             all_flagged(old(room_node).auth_nodes@) ==> unflagged_are_held(room_node.auth_nodes@, old_room_node.auth_nodes@),
             room_node.admin_edges@ == ae_final, room_node.admin_nodes@ == a_final, room_node.auth_edges@ == ge_final,
             room == room_acc, admin_ext(room0, room_acc), distinct_group_ids(old_room_node.auth_nodes@),
+            !need_update ==> all_users_held(a_final, a_final.len() as int, old_room_node.admin_nodes@),
+            // [no_changed_group_goes_unreported_so_far]{C10} as long as the merge reports "nothing to write", every group held seen so far is in the merged definition with the row held and no new entry
+            !need_update ==> forall|j: int| 0 <= j < itg.index@ ==> has_unchanged_group(room_node.auth_nodes@, #[trigger] old_room_node.auth_nodes@[j]),
             forall|i: int| 0 <= i < old_room_node.auth_nodes@.len() ==> room0.authorisations@.contains_key((#[trigger] old_room_node.auth_nodes@[i]).node.id),
             // [room_merge_keeps_groups] every group already held is still in the merged definition, with every entry and reference it held; its row is the one held or a newer one authored by an admin
             forall|j: int| 0 <= j < itg.index@ ==> has_kept_group(room_acc, room_node.auth_nodes@, #[trigger] old_room_node.auth_nodes@[j]),
@@ -723,6 +798,15 @@ pub open spec fn new_admins_entitled(room0: Room, old_s: Seq<UserNode>, s: Seq<U
                 assert(group_keeps(room_acc, *old_auth, room_node.auth_nodes@[idx]));
             }
             lemma_step_keeps_groups(room_acc, g_before, room_node.auth_nodes@, old_room_node.auth_nodes@, itg.index@ as int);
+            if !need_update {
+                if has_id_auth(g_before, old_auth.node.id@) {
+                    let idx = first_idx_auth(g_before, old_auth.node.id@);
+                    lemma_node_same_local(room_node.auth_nodes@[idx].node, old_auth.node, old_auth.node);
+                    // [group_held_counts_as_unchanged_only_with_the_row_held_and_no_new_entry]{C10}
+                    assert(group_unchanged(*old_auth, room_node.auth_nodes@[idx]));
+                }
+                lemma_step_unchanged_groups(g_before, room_node.auth_nodes@, old_room_node.auth_nodes@, itg.index@ as int);
+            }
         }
 //@ insert after-stmt "for old_auth in &old_room_node.auth_nodes"
     let ghost g_final = room_node.auth_nodes@;
@@ -734,6 +818,11 @@ pub open spec fn new_admins_entitled(room0: Room, old_s: Seq<UserNode>, s: Seq<U
             all_flagged(old(room_node).auth_nodes@) ==> unflagged_are_held(room_node.auth_nodes@, old_room_node.auth_nodes@),
             <[u8; 16] as PartialEqSpec<[u8; 16]>>::obeys_eq_spec(),
             room == room_acc,
+            room_node.admin_nodes@ == a_final, room_node.auth_nodes@ == g_final,
+            !need_update ==> all_users_held(a_final, a_final.len() as int, old_room_node.admin_nodes@),
+            !need_update ==> forall|j: int| 0 <= j < old_room_node.auth_nodes@.len() ==> has_unchanged_group(g_final, #[trigger] old_room_node.auth_nodes@[j]),
+            // [no_new_group_goes_unreported_so_far]{C10}
+            !need_update ==> all_auths_held(room_node.auth_nodes@, it.index@ as int, old_room_node.auth_nodes@),
             // [room_merge_new_groups_entitled] a group not already held is accepted only from an admin, with rights and user admins authored by admins and users by its user admins or by admins
             forall|i: int| 0 <= i < it.index@ ==> id_in_auths((#[trigger] room_node.auth_nodes@[i]).node.id, old_room_node.auth_nodes@) || new_group_ok(room_acc, room_node.auth_nodes@[i]),
 //@ insert after-stmt "for new_auth in &room_node.auth_nodes"
@@ -756,6 +845,10 @@ pub open spec fn new_admins_entitled(room0: Room, old_s: Seq<UserNode>, s: Seq<U
             r is Ok ==> keeps_users(old_room_node.admin_nodes@, final(room_node).admin_nodes@)
                 && keeps_edges(old_room_node.admin_edges@, final(room_node).admin_edges@)
                 && keeps_edges(old_room_node.auth_edges@, final(room_node).auth_edges@),
+            // [room_merge_reports_nothing_to_write_only_when_nothing_is_new]{C10} lower bound of the verdict: the merge answers "nothing to write" only when every admin entry and every group of the merged definition is one already held, and every group held is there with the row held and no new entry - a definition received from a peer that brings anything new is always written, so that the importer holds the sender's room after a restart too
+            r is Ok && !r->Ok_0 ==> all_users_held(final(room_node).admin_nodes@, final(room_node).admin_nodes@.len() as int, old_room_node.admin_nodes@)
+                && all_auths_held(final(room_node).auth_nodes@, final(room_node).auth_nodes@.len() as int, old_room_node.auth_nodes@)
+                && (forall|j: int| 0 <= j < old_room_node.auth_nodes@.len() ==> has_unchanged_group(final(room_node).auth_nodes@, #[trigger] old_room_node.auth_nodes@[j])),
             // [merged_room_new_admins_entitled] every admin entry not already held was authored by a key that is an admin at the entry's date
             r is Ok ==> new_admins_entitled(*room, old_room_node.admin_nodes@, final(room_node).admin_nodes@),
 //@ end
